@@ -316,6 +316,8 @@ class ExprMixin:
         subs = self.repo.subclasses(b.cls)
         out = []
         for c in subs:
+            if c in self.repo.pseudo:
+                continue
             ci = self.repo.classes().get(c)
             if ci is not None and any(isinstance(d, ast.Name) and d.id == "abstractmethod"
                                       for m in ci.methods.values() for d in m.decorator_list):
@@ -395,6 +397,10 @@ class ExprMixin:
             for c in self.repo.mro(b.cls):
                 if (c + "." + attr) in self.reg.contracts:
                     return [(st, VFunc("contract", c + "." + attr, self_val=b, qn=c + "." + attr))]
+        if b.cls is not None and not cx.spec and self.repo.classes().get(self.repo.canonical(c0 or b.cls)) is not None:
+            # python semantics: no such attribute on an instance of this class
+            self.raise_(cx, st, "builtins.AttributeError")
+            return []
         raise Unsupported("attribute %s of object of class %s (no field, method or contract)" % (attr, b.cls))
 
     # ------------------------------------------------------------ operators
